@@ -136,10 +136,19 @@ def typed_value_specs(ctx):
     from .. import gen
     rng = ctx.sub_rng("c04dtype")
     specs = []
-    for dt in ("uint64", "uint8", "int64", "float32", "int32", "uint16"):
-        sp = gen.make_spec(rng, D=rng.choice([1, 2]), mode="det", geom="box", opt_loc="inside", cons=None, target=rng.choice(["plateau", "ties"]))
+    for dt in ("uint64", "uint8", "int64", "float32", "int32", "uint16", "int8", "int8", "int16"):
+        sp = gen.make_spec(rng, D=rng.choice([1, 2]), mode="det", geom="box", opt_loc="inside", cons=None, target=rng.choice(["plateau", "ties"]) if dt not in ("int8", "int16") else "ties")
         sp["x0_unit"] = [0.9 if c < 0 else -0.9 for c in sp["c_unit"]]        # start far from the optimum
         sp["ydtype"] = dt
+        if dt in ("int8", "int16"):
+            # values spread over more than half the range of the type (differences beyond +-127 / +-32767 wrap around in that type)
+            sp["yoffset"] = -125.0 if dt == "int8" else -32000.0
+            sp["yscale"] = 130.0 if dt == "int8" else 33000.0
+            sp["D"] = 2
+            sp["c_unit"], sp["x0_unit"], sp["w"] = [0.6, -0.5], [-0.9, 0.9], [1.0, 1.0]
+            sp["options"] = {"max_fun_evals": 60}
+            specs.append(sp)
+            continue
         sp["options"] = {"n_search": 32, "max_fun_evals": 40}
         specs.append(sp)
     return specs
